@@ -6,7 +6,7 @@ import (
 )
 
 func init() {
-	register(&Rule{ID: "C14.e", Doc: "integer tokens are decoded the way the lexer spells them: every strconv parse of a token literal uses base 0 (decimal, 0x.., 0.. forms) and 64 bits", Floor: 2, Run: c14e})
+	register(&Rule{ID: "C14.e", Doc: "integer tokens are decoded the way the lexer spells them: every strconv parse of a token literal uses base 0 (decimal, 0x.., 0.. forms) and 64 bits", Floor: 4, Run: c14e})
 }
 
 // c14e: the lexer's INT token covers decimal and 0x literals (C19.f: the literal is the source
